@@ -108,10 +108,12 @@ def _cell(cell):
 
 def cells(tier):
     out = []
-    small = ["one-shard", "two-shards", "short-last", "singles", "nested", "multi", "three-splits"]
+    small = ["one-shard", "two-shards", "short-last", "singles", "nested", "multi", "three-splits", "grown"]
     for iface in IFACES:
         for layout in small + (["four-shards", "five-shards"] if tier == "thorough" else []):
             for shuffled in (False, True):
+                if shuffled and layout == "grown" and iface != "numpy":
+                    continue  # what the layout adds (state kept from an earlier pass) does not depend on the shuffling path
                 if shuffled and tier == "quick" and iface in ("concurrent", "tfdataset") and layout not in ("one-shard", "two-shards", "singles"):
                     continue  # round robin x lazy-pool order over >= 3 multi-example shards: thorough tier (10k paths per cell)
                 if shuffled and tier == "quick" and iface == "tfdataset" and layout == "singles":
